@@ -50,10 +50,13 @@ func isOriginAllowed(origin string, allowOrigins []string) (string, bool) {
 				return origin, true
 			}
 
-			if strings.Contains(allowedURL.Host, "*") {
-				pattern := strings.ReplaceAll(allowedURL.Host, "*.", "(.*\\.)?")
-				pattern = strings.ReplaceAll(pattern, "*", ".*")
-				matched, errMatched := regexp.MatchString("^"+pattern+"$", originURL.Host)
+			if allowedURL.Scheme == originURL.Scheme &&
+				allowedURL.Port() == originURL.Port() &&
+				strings.Contains(allowedURL.Hostname(), "*") {
+				pattern := regexp.QuoteMeta(allowedURL.Hostname())
+				pattern = strings.ReplaceAll(pattern, "\\*\\.", "(.*\\.)?")
+				pattern = strings.ReplaceAll(pattern, "\\*", ".*")
+				matched, errMatched := regexp.MatchString("^"+pattern+"$", originURL.Hostname())
 				if errMatched == nil && matched {
 					return origin, true
 				}
